@@ -355,6 +355,7 @@ class Gen:
             it = rs.find_fn(fsrc, kv['name'], kv.get('impl'), kv['file'], kv.get('mod'))
         except LookupError as e:
             raise Undecided(f'lost anchor for {fid}: {e}')
+        region_lost = None
         if 'region_start' in kv:
             # a region of the function (consecutive whole lines, anchored by regexes) becomes the body of a wrapper
             # whose signature binds the free variables; `tail=` returns named locals (glue declared in DESIGN.md 2.2)
@@ -362,7 +363,12 @@ class Gen:
             lo, hi = it.line_start - 1, it.line_end
             st = [k for k in range(lo, hi) if re.search(kv['region_start'], lines[k])]
             if len(st) != 1:
-                raise Undecided(f'{fid}: region start /{kv["region_start"]}/ matches {len(st)} lines')
+                # the region cannot be located any more: the wrapper is kept by contract only (stubbed), like any other body that
+                # left the verifier's reach
+                region_lost = f'{fid}: region start /{kv["region_start"]}/ matches {len(st)} lines'
+                st = [lo]
+                kv = dict(kv, region_end='.', tail=kv.get('tail', ''))
+                kv.pop('region_end_excl', None)
             if 'region_end_excl' in kv:
                 # the region ends on the line BEFORE the first line matching this regex (e.g. the `)` closing a builder call)
                 en = [k - 1 for k in range(st[0] + 1, hi) if re.search(kv['region_end_excl'], lines[k])]
@@ -445,6 +451,8 @@ class Gen:
         heads = []
         if not stubbed:
             try:
+                if region_lost:
+                    raise Undecided(region_lost)
                 body_lines, heads = self._prepare_body(it, kv, fid, fn, loops, hints, local_rw, path)
             except Undecided as e:
                 if foreign:
